@@ -47,7 +47,7 @@ class TypeGen:
             return t
         if self.enums and self.rng.random() < 0.3:
             return self.enums[self.rng.choice(sorted(self.enums))]
-        k = self.rng.choice([1, 2, 3, 4, 5])
+        k = self.rng.choice([1, 2, 3, 4, 5] if self.zero else [2, 3, 4, 5])     # one unit variant = a type of 0 bits
         variants = []
         for i in range(k):
             if self.rng.random() < 0.4:
